@@ -1,12 +1,12 @@
 (* C17 property theorems.  Statements + exact + Print Assumptions only. *)
 From ZV.Common Require Import Base.
-From ZV.C17 Require Import Spec Model ProofsSpec ProofsPage ProofsLinks ProofsLru ProofsRefine.
+From ZV.C17 Require Import Spec Model ProofsSpec ProofsPage ProofsLinks ProofsLru ProofsRefine ProofsShard ProofsStamp ProofsTop.
 Open Scope N_scope.
 
 (* ---- S: the recency-list LRU map never exceeds its capacity, for every history ---- *)
 Theorem spec_size_le_cap : forall cap ops l,
   1 <= cap -> nlen l <= cap -> nlen (fst (s_run cap l ops)) <= cap.
-Proof. intros cap ops l. exact (s_run_size cap ops l). Qed.
+Proof. exact (fun cap ops l => s_run_size cap ops l). Qed.
 Check spec_size_le_cap : forall cap ops l,
   1 <= cap -> nlen l <= cap -> nlen (fst (s_run cap l ops)) <= cap.
 Print Assumptions spec_size_le_cap.
@@ -38,6 +38,75 @@ Check lru_size_le_cap : forall c ops,
   1 <= c -> c < INVALID -> count (fst (m_run (lru_new c) ops)) <= c.
 Print Assumptions lru_size_le_cap.
 
+(* ---- "the entry evicted to make room is the one whose last access (get or put) is oldest": the
+        implementation's results and callback invocations are those of the time-stamped map that keeps
+        (key, value, time of last get/put) and evicts the entry with the smallest time ---- *)
+Theorem lru_evicts_oldest_last_access : forall c ops,
+  1 <= c -> c < INVALID ->
+  snd (m_run (lru_new c) ops) = snd (t_run c 0 [] ops).
+Proof. exact lru_oldest_proof. Qed.
+Check lru_evicts_oldest_last_access : forall c ops,
+  1 <= c -> c < INVALID ->
+  snd (m_run (lru_new c) ops) = snd (t_run c 0 [] ops).
+Print Assumptions lru_evicts_oldest_last_access.
+
+(* ---- the eviction callback of a step reports, with key and value, exactly the entries that stop being
+        retrievable in that get/put step (at most one), and never an entry that is still retrievable ---- *)
+Theorem spec_callback_exact : forall cap l o,
+  NoDup (keys l) ->
+  let l' := fst (s_step cap l o) in
+  let cb := snd (snd (s_step cap l o)) in
+  (forall k v, In (k, v) cb -> find k l = Some v /\ find k l' = None) /\
+  (evicting o = true -> forall k v, find k l = Some v -> find k l' = None -> cb = [(k, v)]) /\
+  (length cb <= 1)%nat.
+Proof. exact callback_exact_proof. Qed.
+Check spec_callback_exact : forall cap l o,
+  NoDup (keys l) ->
+  let l' := fst (s_step cap l o) in
+  let cb := snd (snd (s_step cap l o)) in
+  (forall k v, In (k, v) cb -> find k l = Some v /\ find k l' = None) /\
+  (evicting o = true -> forall k v, find k l = Some v -> find k l' = None -> cb = [(k, v)]) /\
+  (length cb <= 1)%nat.
+Print Assumptions spec_callback_exact.
+Example spec_callback_exact_nontrivial :
+  NoDup (keys [(1, 10); (2, 20)]) /\ snd (snd (s_step 2 [(1, 10); (2, 20)] (Put 3 30))) = [(2, 20)].
+Proof. split; [repeat constructor; cbn; intuition discriminate|reflexivity]. Qed.
+
+(* keys of the recency list stay distinct along every history (hypothesis of the theorem above) *)
+Theorem spec_keys_distinct : forall cap ops, NoDup (keys (fst (s_run cap [] ops))).
+Proof. exact spec_keys_distinct_proof. Qed.
+Check spec_keys_distinct : forall cap ops, NoDup (keys (fst (s_run cap [] ops))).
+Print Assumptions spec_keys_distinct.
+
+(* get(k) right after put(k,v) returns v *)
+Theorem spec_put_then_get : forall cap l k v,
+  1 <= cap -> nlen l <= cap -> find k (fst (s_step cap l (Put k v))) = Some v.
+Proof. exact s_put_get. Qed.
+Check spec_put_then_get : forall cap l k v,
+  1 <= cap -> nlen l <= cap -> find k (fst (s_step cap l (Put k v))) = Some v.
+Print Assumptions spec_put_then_get.
+
+(* ---- sharded map (key-hash routing, any hash function `sel`): seen from shard j, a history is the
+        history of one LruMap on the operations routed to j; with fresh shards of capacity c it is
+        therefore the recency-list LRU of capacity c on that sub-history ---- *)
+Theorem cmap_per_shard : forall n j ops c,
+  shard (fst (c_run c n ops)) j = fst (m_run (shard c j) (filter (routed (sel c) j) ops)) /\
+  pick (sel c) j ops (snd (c_run c n ops)) = snd (m_run (shard c j) (filter (routed (sel c) j) ops)).
+Proof. exact cmap_per_shard_proof. Qed.
+Check cmap_per_shard : forall n j ops c,
+  shard (fst (c_run c n ops)) j = fst (m_run (shard c j) (filter (routed (sel c) j) ops)) /\
+  pick (sel c) j ops (snd (c_run c n ops)) = snd (m_run (shard c j) (filter (routed (sel c) j) ops)).
+Print Assumptions cmap_per_shard.
+
+Theorem cmap_shard_is_lru : forall sl cp n j ops,
+  1 <= cp -> cp < INVALID ->
+  pick sl j ops (snd (c_run (mkC sl (fun _ => lru_new cp)) n ops)) = snd (s_run cp [] (filter (routed sl j) ops)).
+Proof. exact cmap_shard_is_lru_proof. Qed.
+Check cmap_shard_is_lru : forall sl cp n j ops,
+  1 <= cp -> cp < INVALID ->
+  pick sl j ops (snd (c_run (mkC sl (fun _ => lru_new cp)) n ops)) = snd (s_run cp [] (filter (routed sl j) ops)).
+Print Assumptions cmap_shard_is_lru.
+
 (* ---- page cache: a read returns exactly the bytes of the file in the range, clipped at EOF,
         from every coherent cache state (after any evictions / reloads / invalidations), for every
         page size, offset and length (page-straddling, beyond EOF) ---- *)
@@ -58,7 +127,7 @@ Print Assumptions read_correct.
 Theorem page_cache_history_correct : forall ps capbytes fs ops,
   0 < ps ->
   snd (pc_run (pc_new ps capbytes fs) ops) = map (expected fs) ops.
-Proof. intros ps capbytes fs ops H. exact (pc_run_spec ops (pc_new ps capbytes fs) H (pc_new_coherent ps capbytes fs)). Qed.
+Proof. exact (fun ps capbytes fs ops H => pc_run_spec ops (pc_new ps capbytes fs) H (pc_new_coherent ps capbytes fs)). Qed.
 Check page_cache_history_correct : forall ps capbytes fs ops,
   0 < ps ->
   snd (pc_run (pc_new ps capbytes fs) ops) = map (expected fs) ops.
